@@ -228,6 +228,7 @@ class QuicSession:
             else:
                 associated_data = quic_packet.first_byte + quic_packet.dcid + quic_packet.packet_num
             payload = decryptor.decrypt(quic_packet.payload, packet_number, associated_data, quic_packet.isserver)
+            self.note_processed_packet_number(quic_packet, packet_number)
 
             frames = parse_frames(payload, quic_packet)
 
@@ -388,11 +389,6 @@ class QuicSession:
         packet_number_int = int.from_bytes(quic_packet.packet_num, "big", signed=False)
 
         if packet_number_int > largest_pkn == 0:
-            if quic_packet.isserver:
-                self.packet_number_server[PACKET_TYPE_MAP[quic_packet.packet_type]] = packet_number_int
-            else:
-                self.packet_number_client[PACKET_TYPE_MAP[quic_packet.packet_type]] = packet_number_int
-
             return quic_packet.packet_num
 
         truncated_pkn = packet_number_int
@@ -414,13 +410,15 @@ class QuicSession:
         else:
             out_pkn = candidate_pkn
 
-        if out_pkn > largest_pkn:
-            if quic_packet.isserver:
-                self.packet_number_server[PACKET_TYPE_MAP[quic_packet.packet_type]] = out_pkn
-            else:
-                self.packet_number_client[PACKET_TYPE_MAP[quic_packet.packet_type]] = out_pkn
-
         return int.to_bytes(out_pkn, 8, "big", signed=False)
+
+    def note_processed_packet_number(self, quic_packet: ShortQuicPacket | LongQuicPacket, packet_number: bytes):
+        """RFC 9000 A.3: the reference for reconstructing packet numbers is the largest packet number of a packet that
+        has been processed *successfully* in that space - a packet that fails authentication (damaged, duplicated too
+        late, outside the sender's window) must not move it."""
+        spaces = self.packet_number_server if quic_packet.isserver else self.packet_number_client
+        space = PACKET_TYPE_MAP[quic_packet.packet_type]
+        spaces[space] = max(spaces[space], int.from_bytes(packet_number, "big", signed=False))
 
     def set_tls_decryptors(self, client_random, ciphersuite: bytes):
 
